@@ -1002,17 +1002,43 @@ def memo_primitives(idx: ProgramIndex, rep: Report):
     def fn(name):
         return idx.function(mod, name)
 
+    def roles(f: FuncInfo) -> Dict[str, str]:
+        """parameter name -> role, by position/kind: (obj, name, [val], *args, kwargs_pkl)"""
+        a_ = f.node.args
+        pos = [x.arg for x in a_.posonlyargs + a_.args]
+        out = {}
+        if len(pos) >= 2:
+            out[pos[0]], out[pos[1]] = "obj", "name"
+        if a_.vararg:
+            out[a_.vararg.arg] = "args"
+        for x in list(a_.kwonlyargs) + [y for y in a_.posonlyargs + a_.args if y.arg not in out]:
+            if "kwargs" in x.arg or "pkl" in x.arg:
+                out[x.arg] = "kwargs_pkl"
+        if a_.kwarg:
+            out[a_.kwarg.arg] = "kwargs"
+        return out
+
+    def show_key(e: ast.AST, r: Dict[str, str]) -> str:
+        """key expression with parameter names replaced by their roles"""
+        if isinstance(e, ast.Name):
+            return r.get(e.id, "?" + e.id)
+        if isinstance(e, ast.Tuple):
+            return "(" + ", ".join(show_key(x, r) for x in e.elts) + ")"
+        if isinstance(e, ast.Call) and chain(e.func) == "pickle.dumps" and len(e.args) == 1:
+            return "pickle(%s)" % show_key(e.args[0], r)
+        return "?" + src(e)
+
     def key_exprs(f: FuncInfo) -> List[str]:
         out = []
+        r = roles(f)
         for n in ast.walk(f.node):
             if isinstance(n, ast.Subscript) and src(n.value).endswith("_memoize_cache"):
-                out.append(src(n.slice))
+                out.append(show_key(n.slice, r))
             if isinstance(n, ast.Compare) and len(n.ops) == 1 and isinstance(n.ops[0], ast.In) and src(n.comparators[0]).endswith("_memoize_cache"):
-                out.append(src(n.left))
+                out.append(show_key(n.left, r))
         return out
 
     trip = {n: key_exprs(fn(n)) for n in ("_add_to_cache", "_get_from_cache", "_is_in_cache")}
-    keys = {tuple(v) for v in trip.values()}
     want = "(name, args, kwargs_pkl)"
     ok = all(v == [want] for v in trip.values())
     rep.add("C03-7", mod + ":key(args)", fn("_add_to_cache").where, ok, "the three arg-honouring primitives use the identical key %s" % want if ok else "key builders disagree or drop a component: %s" % trip, {"keys": trip})
@@ -1020,25 +1046,36 @@ def memo_primitives(idx: ProgramIndex, rep: Report):
     ok2 = all(v == ["name"] for v in trip2.values())
     rep.add("C03-7", mod + ":key(ignore_args)", fn("_add_to_cache_ignore_args").where, ok2, "identical key `name`" if ok2 else "ignore-args key builders disagree: %s" % trip2, {"keys": trip2})
     # pop_from_cache pops the same key shape
-    pk = [src(c.args[0]) for c in calls_in(fn("pop_from_cache").node) if (call_name(c) or "").endswith("_memoize_cache.pop")]
-    ok3 = pk == ["(name, args, pickle.dumps(kwargs))"]
-    rep.add("C03-7", mod + ":pop_from_cache", fn("pop_from_cache").where, ok3, "pops (name, args, pickled kwargs)" if ok3 else "pop_from_cache key is %s" % pk, {})
-    # _cached.g feeds *args and pickled kwargs into all three
+    pf = fn("pop_from_cache")
+    pk = [show_key(c.args[0], roles(pf)) for c in calls_in(pf.node) if (call_name(c) or "").endswith("_memoize_cache.pop") and c.args]
+    ok3 = pk == ["(name, args, pickle(kwargs))"]
+    rep.add("C03-7", mod + ":pop_from_cache", pf.where, ok3, "pops (name, args, pickled kwargs)" if ok3 else "pop_from_cache key is %s" % pk, {})
+    # _cached.g feeds *args and pickled kwargs into all three (decided on inlined definitions)
+    from ..symbolic import inline, walk_paths
     g = None
     for n in ast.walk(fn("_cached").node):
-        if isinstance(n, ast.FunctionDef) and n.name == "g":
+        if isinstance(n, ast.FunctionDef) and n is not fn("_cached").node and n.args.vararg and n.args.kwarg:
             g = n
     if g is None:
-        raise AnalysisError("anchor vanished: _cached.g")
-    calls = {(call_name(c) or ""): c for c in calls_in(g)}
-    okg = True
-    for nm in ("_is_in_cache", "_add_to_cache", "_get_from_cache"):
-        c = calls.get(nm)
-        if c is None or not any(isinstance(a, ast.Starred) and src(a.value) == "args" for a in c.args) or not any(k.arg == "kwargs_pkl" and src(k.value) == "kwargs_pkl" for k in c.keywords):
-            okg = False
-    pk_assign = any(isinstance(n, ast.Assign) and src(n.targets[0]) == "kwargs_pkl" and src(n.value) == "pickle.dumps(kwargs)" for n in ast.walk(g))
-    computes = any(isinstance(c, ast.Call) and src(c.func) == "method" and any(isinstance(a, ast.Starred) for a in c.args) for c in calls_in(g))
-    rep.add("C03-7", mod + ":_cached.g", "%s:%d" % (mi.relpath, g.lineno), okg and pk_assign and computes, "args and pickled kwargs enter the key of lookup, store and fetch; the method is evaluated with the same arguments" if okg and pk_assign and computes else "_cached.g does not feed *args/kwargs_pkl into lookup, store and fetch", {})
+        raise AnalysisError("anchor vanished: the wrapper function inside _cached")
+    gfi = FuncInfo(mi, None, g.name, g)
+    va, kw = g.args.vararg.arg, g.args.kwarg.arg
+    outer_method = fn("_cached").params[0]
+    seen_calls: Dict[str, List[bool]] = {}
+    computes = False
+    for path, seq in walk_paths(gfi):
+        for st, env in seq:
+            node = st if isinstance(st, ast.stmt) else st.node  # assume steps carry the test expression
+            for c in (x for x in ast.walk(node) if isinstance(x, ast.Call)):
+                nm = call_name(c) or ""
+                if nm in ("_is_in_cache", "_add_to_cache", "_get_from_cache"):
+                    star = any(isinstance(a_, ast.Starred) and src(inline(a_.value, env)) == va for a_ in c.args)
+                    pkl = any(k.arg is not None and "pkl" in k.arg and show_key(inline(k.value, env), {kw: "kwargs"}) == "pickle(kwargs)" for k in c.keywords)
+                    seen_calls.setdefault(nm, []).append(star and pkl)
+                if isinstance(c.func, ast.Name) and c.func.id == outer_method and any(isinstance(a_, ast.Starred) and src(a_.value) == va for a_ in c.args) and any(k.arg is None and src(k.value) == kw for k in c.keywords):
+                    computes = True
+    okg = all(seen_calls.get(nm) and all(seen_calls[nm]) for nm in ("_is_in_cache", "_add_to_cache", "_get_from_cache"))
+    rep.add("C03-7", mod + ":_cached.g", "%s:%d" % (mi.relpath, g.lineno), okg and computes, "args and pickled kwargs enter the key of lookup, store and fetch; the method is evaluated with the same arguments" if okg and computes else "_cached.g does not feed *args/pickled kwargs into lookup, store and fetch (%s)" % {k: v for k, v in seen_calls.items()}, {})
     # clear_cache_hook
     cch = fn("clear_cache_hook")
     first = cch.params[0]
@@ -1048,7 +1085,8 @@ def memo_primitives(idx: ProgramIndex, rep: Report):
     for nm, inner in (("add_to_cache", "_add_to_cache"), ("get_from_cache", "_get_from_cache")):
         f = fn(nm)
         c = [c for c in calls_in(f.node) if call_name(c) == inner]
-        okw = len(c) == 1 and any(isinstance(a, ast.Starred) and src(a.value) == "args" for a in c[0].args) and any(k.arg == "kwargs_pkl" and src(k.value) == "pickle.dumps(kwargs)" for k in c[0].keywords)
+        okw = len(c) == 1 and f.node.args.vararg is not None and f.node.args.kwarg is not None and any(isinstance(a, ast.Starred) and src(a.value) == f.node.args.vararg.arg for a in c[0].args) \
+            and any(k.arg is not None and "pkl" in k.arg and show_key(k.value, {f.node.args.kwarg.arg: "kwargs"}) == "pickle(kwargs)" for k in c[0].keywords)
         rep.add("C03-7", mod + ":" + nm, f.where, okw, "forwards *args and pickled kwargs" if okw else "%s does not forward *args and pickled kwargs to %s" % (nm, inner), {})
 
 
